@@ -40,6 +40,11 @@ TokSource(c) == <<W("a ")>> \o <<W(c.o), W(" ")>> \o Flatten([i \in 1..Len(c.ts)
                 \o (CASE c.tail = "endif" -> <<W("{% endif %}")>> [] c.tail = "endfor" -> <<W("{% endfor %}c")>> [] OTHER -> <<>>)
 TokRelevant(c) == c.tail = "none" \/ (Len(c.ts) >= 1 /\ c.ts[1] \in {"if", "for", "elseif", "else", "block", "macro"} /\ c.c = "match")
 
+\* ---- tags cut off at the end of a template, below and above the large-template threshold -----------
+Frags == {"{{ x }", "{{ x ", "{{ x", "{{", "{", "{% if x %", "{% if x ", "{% if", "{%", "{# c #", "{# c", "{#", "{{ x }}", "{% if x %}",
+          "{{ 'a", "{{ x|", "{{ x.", "{{ (x", "{{ [x", "{% for i in", "{% set", "{% include", "{% endif %", "}}", "%}", "{{ x -}", "{{- x -", "{%- if x -%"}
+TruncCases == {[fam |-> "trunc", frag |-> f] : f \in Frags}
+TruncLens == {0, 4000, 4085, 4090, 4096, 4100, 20000}
 \* ---- context value shapes x skeletons -------------------------------------------------------------
 Shapes == {"nil", "true", "int0", "int5", "intneg", "float", "strempty", "str", "strnum", "listempty", "listmixed", "strs", "ints", "arr3",
            "mapany", "mss", "mis", "msl", "mapempty", "struct", "ptrstruct", "nilptrstruct", "embedded", "methods", "ptrptr", "nilslice",
@@ -74,6 +79,8 @@ Skeletons ==
     range |-> <<For1("i", Call("range", <<LI(1), V>>), <<>>)>>, maxf |-> <<PrintS(Call("max", <<V>>))>>, minf |-> <<PrintS(Call("min", <<V, LI(1)>>))>>,
     cycle |-> <<PrintS(Call("cycle", <<V, LI(1)>>))>>, macroarg |-> <<Macro("mm", <<Param("a")>>, <<PrintS(Attr(Var("a"), "b"))>>), PrintS(Call("mm", <<V>>))>>,
     setv |-> <<Set("z", V), PrintS(Item(Var("z"), LI(0)))>>, ternary |-> <<PrintS(Cond(V, V, V))>>, arr |-> <<PrintS(Filt("join", Arr(<<V, V>>), <<>>))>>,
+    attrName |-> <<PrintS(Attr(V, "Name"))>>, attrPName |-> <<PrintS(Attr(V, "PName"))>>,
+    attrseq |-> <<PrintS(Attr(V, "nosuch")), PrintS(Attr(V, "X")), PrintS(Attr(V, "Name")), PrintS(Attr(V, "nosuch")), PrintS(Attr(V, "Y"))>>,
     hash |-> <<Set("h", Hash(<<LS(<<107>>)>>, <<V>>)), PrintS(Attr(Attr(Var("h"), "k"), "a"))>>, callv |-> <<PrintS(MCall("v", "a", <<>>))>> ]
 \* a loop over range(1, 2^40) is a finite but enormous computation the template itself asks for: not a hang of the engine
 ShapeCases == {[fam |-> "shape", sk |-> sk, sh |-> sh] : sk \in DOMAIN Skeletons, sh \in Shapes} \ {[fam |-> "shape", sk |-> "range", sh |-> "int64"]}
@@ -100,6 +107,10 @@ CaseOf(c) ==
     CASE c.fam = "tok" ->
            [prop |-> "C05", key |-> ToJson(c), tags |-> {"fam:tok", "open:" \o c.o, "close:" \o c.c}, entry |-> "main", ctx |-> ("x" :> VI(1)),
             runs |-> {[label |-> "tok", tp |-> ("main" :> TokSource(c)), xcalls |-> [id \in {} |-> 0], probe |-> TRUE]}, expect |-> AnyExpect]
+      [] c.fam = "trunc" ->
+           [prop |-> "C05", key |-> ToJson(c), tags |-> {"fam:trunc"}, entry |-> "main", ctx |-> ("x" :> VI(1)),
+            runs |-> {[label |-> "len" \o ToString(l), tp |-> ("main" :> <<C(<<97, PadBase, 98, 32>>), W(c.frag)>>), xcalls |-> [id \in {} |-> 0], probe |-> TRUE,
+                       pads |-> <<[len |-> l, style |-> "b", total |-> 0]>>] : l \in TruncLens}, expect |-> AnyExpect]
       [] c.fam = "shape" ->
            [prop |-> "C05", key |-> ToJson(c), tags |-> {"fam:shape", "sk:" \o c.sk, "sh:" \o c.sh}, entry |-> "main",
             ctx |-> ("v" :> [t |-> "shape", kind |-> c.sh]),
@@ -113,10 +124,12 @@ CaseOf(c) ==
 Fams == {"tok", "shape", "dec"}
 \* partitions (expanded in parallel by TLC's workers; also keeps every set below TLC's size limit)
 Init == cs \in {[part |-> "tok", o |-> o, c |-> c, tl |-> tl] : o \in Opens, c \in Closes, tl \in Tails}
-             \cup {[part |-> "shape", o |-> "", c |-> "", tl |-> ""], [part |-> "dec", o |-> "", c |-> "", tl |-> ""]}
+             \cup {[part |-> "shape", o |-> "", c |-> "", tl |-> ""], [part |-> "dec", o |-> "", c |-> "", tl |-> ""],
+                   [part |-> "trunc", o |-> "", c |-> "", tl |-> ""]}
 Next == "part" \in DOMAIN cs /\
         cs' \in (CASE cs.part = "tok" -> {c \in TokCasesOf(cs.o, cs.c, cs.tl) : TokRelevant(c)}
                    [] cs.part = "shape" -> ShapeCases
+                   [] cs.part = "trunc" -> TruncCases
                    [] cs.part = "dec" -> DecCases)
 Spec == Init /\ [][Next]_cs
 IsCase == "fam" \in DOMAIN cs
